@@ -178,6 +178,11 @@ func main() {
 						}
 						hashAfter = deepHash(s)
 						seqv = [][]float64{sv}
+						// the threads get an instance that has never been evaluated (state built lazily on first use
+						// must be built correctly when the first uses are concurrent)
+						if s2, err := sb.B2(); err == nil && s2 != nil {
+							s = s2
+						}
 						for t := 0; t < u.threads; t++ {
 							t := t
 							wg.Add(1)
@@ -206,6 +211,9 @@ func main() {
 						}
 						hashAfter = deepHash(s)
 						seqv = [][]float64{sv}
+						if s3, err := sb.B3(); err == nil && s3 != nil {
+							s = s3
+						}
 						for t := 0; t < u.threads; t++ {
 							t := t
 							wg.Add(1)
